@@ -96,6 +96,16 @@ def _raw_cast(x, y, n_bits):
         return lambda m: np.asarray(m).astype(object)   # (np.array(np.int64(..), dtype=object) would keep the NumPy scalar)
     return lambda m: m
 
+def _raw_array(val):
+    """
+    The raw result of an operation as an array. An operation on two 0-d object arrays gives a bare Python integer:
+    it stays a Python object (np.asarray would turn it into int64, or into uint64 from 2**63 on, which set_val()
+    reinterprets as a negative int64 raw value).
+    """
+    if isinstance(val, int) and not isinstance(val, (bool, np.integer)):
+        return np.array(val, dtype=object)
+    return np.asarray(val)
+
 def _signed_value(val):
     """
     The value(s) of an unsigned integer object (an uint64 array or scalar below 2**63) in a signed type,
@@ -357,7 +367,7 @@ def add(x, y, out=None, out_like=None, sizing='optimal', method='raw', **kwargs)
         precision_cast = (lambda m: np.array(m, dtype=object)) if n_frac >= _n_word_max else (lambda m: m)
         raw_cast = _raw_cast(x, y, max(x.n_word + n_frac - x.n_frac, y.n_word + n_frac - y.n_frac) + 2)
         exact = _needs_exact_sum(x, y, n_frac)
-        return np.asarray(_rescale(raw_cast(x.val), n_frac - x.n_frac, n_frac, exact) + _rescale(raw_cast(y.val), n_frac - y.n_frac, n_frac, exact))
+        return _raw_array(_rescale(raw_cast(x.val), n_frac - x.n_frac, n_frac, exact) + _rescale(raw_cast(y.val), n_frac - y.n_frac, n_frac, exact))
 
     if not isinstance(x, Fxp):
         x = Fxp(x)
@@ -385,7 +395,7 @@ def sub(x, y, out=None, out_like=None, sizing='optimal', method='raw', **kwargs)
         if getattr(x_raw, 'dtype', None) == np.uint64 and getattr(y_raw, 'dtype', None) == np.uint64:
             # the difference of two unsigned raw values can be negative (both are below 2**62 here: no cast to Python integers was needed)
             x_raw, y_raw = x_raw.astype(np.int64), y_raw.astype(np.int64)
-        return np.asarray(x_raw - y_raw)
+        return _raw_array(x_raw - y_raw)
 
     if not isinstance(x, Fxp):
         x = Fxp(x)
@@ -407,7 +417,7 @@ def mul(x, y, out=None, out_like=None, sizing='optimal', method='raw', **kwargs)
     def _mul_raw(x, y, n_frac):
         precision_cast = (lambda m: np.array(m, dtype=object)) if n_frac >= _n_word_max else (lambda m: m)
         raw_cast = _raw_cast(x, y, x.n_word + y.n_word)
-        product = np.asarray(raw_cast(x.val) * raw_cast(y.val))
+        product = _raw_array(raw_cast(x.val) * raw_cast(y.val))
         return _rescale(product, n_frac - x.n_frac - y.n_frac, n_frac, utils.needs_exact_scale(product, n_frac - x.n_frac - y.n_frac))
 
     if not isinstance(x, Fxp):
